@@ -1028,7 +1028,7 @@ def _requirements_part(ctx, events, recipes):
             evs.append(_fit_event(ctx, 0, r, x, y, var, step, req, ['gaussian'], list(bks)))
             ctx.case(nontrivial_id=('curved', amp, tuple(bks), sx, sy, nseed))
 
-    for k in range(48 if ctx.thorough else 7):
+    for k in range(20 if ctx.thorough else 7):
         nseed = rng.getrandbits(32)
         sx, sy = SCALES[k % len(SCALES)] if k % 4 == 3 else (1.0, 1.0)
         for amp in ((0.0, 0.6, 1.2, 2.5) if ctx.thorough else (0.0, 0.6, 1.2)):
